@@ -185,19 +185,19 @@ structure PMState where
   deriving Repr
 
 /-- The `for { ReadFrame … }` loop of `pageMap`. `fuel` bounds the iterations (every iteration
-    consumes a frame; `pageMap` passes more fuel than there are frames). Returns the state, whether
-    the byte budget stopped the loop, and the reader. -/
-def pmLoop : Nat → Reader → Nat → Nat → PMState → Except Err (PMState × Bool × Reader)
-  | 0, r, _, _, st => .ok (st, false, r)
+    consumes a frame; `pageMap` passes more fuel than there are frames). Returns the state and whether
+    the byte budget stopped the loop. -/
+def pmLoop : Nat → Reader → Nat → Nat → PMState → Except Err (PMState × Bool)
+  | 0, _, _, _, st => .ok (st, false)
   | fuel + 1, r, start, maxBytes, st =>
     match readFrame r with
-    | .error .eof => .ok (st, false, r)
+    | .error .eof => .ok (st, false)
     | .error e => .error e
     | .ok (r', pgno, fcommit) =>
       let tx := pmSet st.tx pgno r'.offset
       if fcommit ≠ 0 then
         let st' : PMState := { m := pmMerge st.m tx, tx := [], commit := fcommit }
-        if maxBytes > 0 ∧ r'.offset + (fhSize + r.ps) - start ≥ maxBytes then .ok (st', true, r')
+        if maxBytes > 0 ∧ r'.offset + (fhSize + r.ps) - start ≥ maxBytes then .ok (st', true)
         else pmLoop fuel r' start maxBytes st'
       else pmLoop fuel r' start maxBytes { st with tx := tx }
 
@@ -220,7 +220,7 @@ def pmFinish (ps : Nat) (st : PMState) (limited : Bool) : PageMapResult :=
 def pageMap (r : Reader) (maxBytes : Nat) : Except Err PageMapResult :=
   match pmLoop (r.b.length + 1) r (hdrSize + r.frameN * (fhSize + r.ps)) maxBytes {} with
   | .error e => .error e
-  | .ok (st, limited, _) => .ok (pmFinish r.ps st limited)
+  | .ok (st, limited) => .ok (pmFinish r.ps st limited)
 
 /-- wal_reader.go `PageMap` -/
 def pageMap0 (r : Reader) : Except Err PageMapResult := pageMap r 0
@@ -306,17 +306,25 @@ def nValid (valid : Nat → Bool) (fs : List Frame) : Nat := countPrefix valid f
 def goodPageSize (ps : Nat) : Bool :=
   ps == 512 || ps == 1024 || ps == 2048 || ps == 4096 || ps == 8192 || ps == 16384 || ps == 32768 || ps == 65536
 
-/-- `mxFrame`: number of frames up to and including the last commit frame of `vp` (0 if none). -/
-def mxFrame : List Frame → Nat
-  | [] => 0
-  | f :: rest => let k := mxFrame rest; if k ≠ 0 then k + 1 else if f.commit ≠ 0 then 1 else 0
-
-/-- Index (0-based) of the last frame among the first `mx` frames of `vp` holding page `pg`. -/
-def lastIdx (vp : List Frame) (pg : Nat) : Nat → Option Nat
+/-- Greatest index `i < n` whose frame satisfies `p` (none if there is none). -/
+def lastIdxP (p : Frame → Bool) (vp : List Frame) : Nat → Option Nat
   | 0 => none
   | i + 1 => match vp[i]? with
-    | some f => if f.pgno = pg then some i else lastIdx vp pg i
-    | none => lastIdx vp pg i
+    | some f => if p f then some i else lastIdxP p vp i
+    | none => lastIdxP p vp i
+
+/-- `mxFrame`: number of frames up to and including the last commit frame of `vp` (0 if none). -/
+def mxFrame (vp : List Frame) : Nat :=
+  match lastIdxP (fun f => f.commit != 0) vp vp.length with
+  | some i => i + 1
+  | none => 0
+
+/-- Index (0-based) of the last frame among the first `mx` frames of `vp` holding page `pg`. -/
+def lastIdx (vp : List Frame) (pg : Nat) (mx : Nat) : Option Nat := lastIdxP (fun f => f.pgno == pg) vp mx
+
+/-- The commit-size field of frame `mx-1` (0 if `mx = 0`). -/
+def commitOf (vp : List Frame) (mx : Nat) : Nat :=
+  if mx = 0 then 0 else ((vp[mx - 1]?).map (·.commit)).getD 0
 
 structure Recovered where
   mx     : Nat          -- frames SQLite's wal-index covers after recovery
@@ -325,15 +333,26 @@ structure Recovered where
   ps     : Nat
   deriving Repr
 
-/-- The spec: valid prefix by SQLite's rule, `mx` = last commit frame in it, `commit` its size field. -/
+/-- The valid prefix by SQLite's rule. -/
+def sqPrefix (h : Hdr) (b : Bytes) : List Frame :=
+  let fs := rawFrames h.ps b
+  fs.take (nValid (sqValidAt h fs) fs)
+
+/-- The valid prefix by litestream's rule (no `pgno ≠ 0` test). -/
+def lsPrefix (h : Hdr) (b : Bytes) : List Frame :=
+  let fs := rawFrames h.ps b
+  fs.take (nValid (lsValidAt h fs) fs)
+
+/-- The spec: header accepted (SQLite also insists on a power-of-two page size in 512..65536),
+    valid prefix by SQLite's rule, `mx` = last commit frame in it, `commit` its size field. -/
 def recover (b : Bytes) : Option Recovered :=
   match parseHdr b with
   | .error _ => none
   | .ok h =>
-    let fs := rawFrames h.ps b
-    let vp := fs.take (nValid (sqValidAt h fs) fs)
-    let mx := mxFrame vp
-    some { mx := mx, commit := if mx = 0 then 0 else ((vp[mx - 1]?).map (·.commit)).getD 0, vp := vp, ps := h.ps }
+    if goodPageSize h.ps then
+      let vp := sqPrefix h b
+      some { mx := mxFrame vp, commit := commitOf vp (mxFrame vp), vp := vp, ps := h.ps }
+    else none
 
 /-- Where SQLite reads page `pg` from after recovery: the file offset of the latest frame `≤ mx`
     holding `pg`, for pages inside the committed size only. -/
